@@ -342,7 +342,7 @@ theorem vl_fin {g sh Q log sh' id f push evs} (h : InvP g sh (Instr.fin id f :: 
   unfold execFin at he
   cases hfind : findId sh.nodes id with
   | none =>
-    simp [hfind] at he; obtain ⟨rfl, rfl, rfl⟩ := he
+    simp only [hfind] at he; obtain ⟨st, dd, rfl, rfl⟩ := execFinStale_cases he
     intro hg hf n hn hold
     exact hvl hg hf n hn (keep (by simpa [Holds] using hold))
   | some n0 =>
